@@ -487,6 +487,26 @@ func checkAggregators(sp *spec, data, canon []nv) (runs int, fs []*fail) {
 				got = append(got, it.Name)
 			}
 			report("MatchCounter.ItemsSortedBy", got, arrival)
+			// the first N rows (`-n N`) are the first N of that order, whatever
+			// order the map hands the items over in (asked several times: every call
+			// iterates the map afresh); a selection shortcut for N << groups must
+			// not change which rows are shown
+			for _, n := range []int{1, 2, 3, 5, len(arrival) / 3} {
+				if n < 1 || 2*n >= len(arrival) || len(fs) > 0 {
+					continue
+				}
+				for rep := 0; rep < 6; rep++ {
+					s2, _ := sp.fresh()
+					var top []string
+					for _, it := range c.ItemsSortedBy(n, s2) {
+						top = append(top, it.Name)
+					}
+					if !equalStrings(top, want[:n]) {
+						fs = append(fs, failf("C13/"+level+"/aggregator-top-n-differs/MatchCounter.ItemsSortedBy", "sort %q: ItemsSortedBy(%d) gives %q for %d groups; the first %d of the full order are %q", sp.name, n, top, len(arrival), n, want[:n]))
+						break
+					}
+				}
+			}
 		})
 		guard("SubKeyCounter.ItemsSorted", func() {
 			s, _ := sp.fresh()
